@@ -111,6 +111,9 @@ def write_replay(v):
         "pair": v.get("pair"),
         "monitors": v.get("monitors"),
     }
+    if v.get("fn"):
+        body["fn"] = v["fn"]
+        body["case"] = v.get("case")
     text = json.dumps(body, indent=1, sort_keys=True, default=repr)
     h = hashlib.sha1(text.encode()).hexdigest()[:12]
     path = os.path.join(d, "%s-%s.json" % (v["kind"], h))
@@ -286,3 +289,80 @@ def write_evidence(prop, ev):
         pass
     with open(os.path.join(d, "%s.json" % prop), "w") as f:
         json.dump(ev, f, indent=1, sort_keys=True, default=repr)
+
+
+def finish_static(prop, tier, seed, level, parts, rule, t0, samples, extra_cov=None, assumptions=None):
+    """parts: list of (fn_name, results). Violations carry their own 'case'."""
+    findings = load_findings()
+    viols = []
+    herr = []
+    n_cases = 0
+    n_skipped = 0
+    for fn_name, results in parts:
+        for r in results:
+            if "harness_error" in r:
+                herr.append(r)
+                continue
+            n_cases += 1
+            if r.get("skipped"):
+                n_skipped += 1
+            for v in r.get("violations", []):
+                v["fn"] = fn_name
+                viols.append(v)
+    code = 0
+    known_hit = collections.OrderedDict()
+    new_viols = []
+    for v in viols:
+        if v.get("property") != prop:
+            continue
+        f = match_finding(v, findings)
+        if f is not None:
+            known_hit.setdefault(f["id"], [f, 0])
+            known_hit[f["id"]][1] += 1
+        else:
+            new_viols.append(v)
+    for fid, (f, n) in known_hit.items():
+        print("KNOWN-FINDING: property=%s %s [%s; %d case(s)]" % (prop, f["what"], fid, n))
+    seen_sig = set()
+    for v in new_viols:
+        sk = (v["kind"], json.dumps(v.get("sig", {}), sort_keys=True, default=repr))
+        if sk in seen_sig:
+            continue
+        seen_sig.add(sk)
+        d = os.path.join(VERIF, "replays", prop)
+        os.makedirs(d, exist_ok=True)
+        body = {"property": prop, "kind": v["kind"], "sig": v.get("sig", {}), "detail": v.get("detail"),
+                "fn": v["fn"], "case": v.get("case")}
+        text = json.dumps(body, indent=1, sort_keys=True, default=repr)
+        path = os.path.join(d, "%s-%s.json" % (v["kind"], hashlib.sha1(text.encode()).hexdigest()[:12]))
+        with open(path, "w") as f:
+            f.write(text)
+        print("VIOLATION property=%s replay=%s" % (prop, path))
+        print("  kind=%s sig=%s" % (v["kind"], json.dumps(v.get("sig", {}), sort_keys=True, default=repr)))
+        code = 1
+    if herr:
+        for r in herr[:5]:
+            print("HARNESS-ERROR\n%s" % r["harness_error"], file=sys.stderr)
+        if code == 0:
+            code = 2
+    cov = {
+        "evaluations": n_cases,
+        "distinct_nontrivial": n_cases - n_skipped,
+        "rule": rule,
+        "samples": samples,
+        "exhaustive": not herr,
+        "cases_skipped_by_inspection": n_skipped,
+        "known_findings_hit": {k: n for k, (f, n) in known_hit.items()},
+        "new_violations": len(new_viols),
+    }
+    if extra_cov:
+        cov.update(extra_cov)
+    ev = {
+        "property_id": prop, "tier": tier, "seed": int(seed), "level": level, "coverage": cov,
+        "assumptions": list(assumptions or []) + [ASSUMPTIONS[2], ASSUMPTIONS[3]],
+        "wall_s": round(time.time() - t0, 2), "violations": len(new_viols),
+    }
+    write_evidence(prop, ev)
+    print("%s tier=%s cases=%d known=%d new=%d wall=%.1fs exit=%d"
+          % (prop, tier, n_cases, sum(n for _, n in known_hit.values()), len(new_viols), time.time() - t0, code))
+    return code
